@@ -78,6 +78,26 @@ DerivedDrift(e) ==
   IF m.k # e.out.k THEN {<<"derived-" \o e.op \o ":" \o m.k \o "-modelled-" \o e.out.k \o "-observed", e.id, 0>>}
   ELSE IF m.k = "ok" /\ m.view # e.out.view THEN {<<"derived-view:" \o e.op, e.id, 0>>} ELSE {}
 
+(* ---- chains (histories) on ONE cached object: e.d start, e.path, e.out = [k, view], e.fresh, e.elem,        *)
+(*      e.ids / e.mk / e.mview: what SpaceChainMachine (layer C) predicted for this chain, e.oids observed ---- *)
+ChainClauses(e) ==
+  LET x == ChainExpect(e.d, e.path)
+      rx == AStep(x, COp("real_space", "", <<>>))        \* the space x.real / x.imag live in
+  IN  IF x.k # "ok" THEN {}
+      ELSE (IF e.out.k = "raise" THEN {<<"chain-raises", e.id, 0, 0>>}
+            ELSE {<<"chain-" \o f, e.id, 0, 0>> : f \in ViewDiff(e.out.view, x.view, x.wclaim)})
+      \* the same chain from an independently constructed equal space gives an equal space
+      \cup (IF e.fresh \notin {"equal", "n/a"} THEN {<<"chain-history-dependent:" \o e.fresh, e.id, 0, 0>>} ELSE {})
+      \* element level: real / imaginary part and conjugate against NumPy on asarray, and the space they live in
+      \cup (IF e.elem.k = "ok"
+             THEN {<<"chain-element-" \o f, e.id, 0, 0>> : f \in {e.elem.bad[i] : i \in 1..Len(e.elem.bad)}}
+                  \cup {<<"chain-real-part-space-" \o f, e.id, 0, 0>> : f \in ViewDiff(e.elem.rview, rx.view, rx.wclaim)}
+             ELSE IF e.elem.k = "raise" THEN {<<"chain-element-raises", e.id, 0, 0>>} ELSE {})
+ChainDrift(e) ==
+       (IF e.mk # e.out.k THEN {<<"chain-" \o e.mk \o "-modelled-" \o e.out.k \o "-observed", e.id, 0>>} ELSE {})
+  \cup (IF e.mk = "ok" /\ e.out.k = "ok" /\ e.mview # e.out.view THEN {<<"chain-view", e.id, 0>>} ELSE {})
+  \cup (IF e.out.k = "ok" /\ e.ids # e.oids THEN {<<"chain-identity-pattern", e.id, 0>>} ELSE {})
+
 (* ---- element indexing commutes with asarray: e.out in equal | differ | raise-elem | raise-array | raise-both ---- *)
 IndexClauses(e) ==
   IF e.out \in {"equal", "raise-both"} THEN {} ELSE {<<"indexing-" \o e.out, e.id, 0, 0>>}
@@ -87,6 +107,7 @@ Clauses(e) ==
     [] e.ev = "element" -> ElementClauses(e)
     [] e.ev = "derived" -> DerivedClauses(e)
     [] e.ev = "index" -> IndexClauses(e)
+    [] e.ev = "chain" -> ChainClauses(e)
 
 \* family features of a pair of objects (they name the cell in the signature of a finding); none is left on the
 \* current tree, the classes of the two objects identify the family
@@ -103,7 +124,8 @@ TraceStep ==
   /\ l <= Len(Trace)
   /\ LET e == Trace[l]
          bad == Clauses(e)
-         drift == IF e.ev = "obj" THEN ObjDrift(e) ELSE IF e.ev = "derived" THEN DerivedDrift(e) ELSE {}
+         drift == IF e.ev = "obj" THEN ObjDrift(e) ELSE IF e.ev = "derived" THEN DerivedDrift(e)
+                  ELSE IF e.ev = "chain" THEN ChainDrift(e) ELSE {}
          notes == IF e.ev = "obj" THEN ObjNotes(e) ELSE {}
      IN  /\ (IF bad = {} THEN TRUE ELSE PrintT("FAIL " \o ToJson([line |-> l, bad |-> WithFeat(e, bad)])))
          /\ (IF drift = {} THEN TRUE ELSE PrintT("DRIFT " \o ToJson([line |-> l, drift |-> drift])))
